@@ -226,6 +226,52 @@ def install():
         if mod is not None and getattr(mod, "distance", None) is orig_dist:
             mod.distance = distance
 
+    # angle / parallel / orthogonal (module-level functions of calc.angle; the angle is logged as the certified rational cos^2)
+    ma = sys.modules["Geometry3D.calc.angle"]
+    for name in ("angle", "parallel", "orthogonal"):
+        orig = getattr(ma, name)
+
+        def make(name=name, orig=orig):
+            @functools.wraps(orig)
+            def wrapped(a, b):
+                if name == "angle":
+                    post = lambda r: {"res": {"k": "Cos2", "q": rat(math.cos(float(r)) ** 2, 0)}}
+                else:
+                    post = lambda r: {"res": {"k": "Bool", "b": r} if isinstance(r, bool) else {"k": "Other"}}
+                return record(name, (a, b), lambda: orig(a, b), post=post)
+            return wrapped
+        w = make()
+        for mod in (ma, G, sys.modules.get("Geometry3D.calc"), sys.modules.get("Geometry3D.calc.distance"),
+                    sys.modules.get("Geometry3D.calc.intersection"), sys.modules.get("Geometry3D.geometry.body")):
+            if mod is not None and getattr(mod, name, None) is orig:
+                setattr(mod, name, w)
+
+    # the method forms a.intersection(b), a.distance(b), a.angle(b), a.parallel(b), a.orthogonal(b) are top-level calls of their own
+    gb = sys.modules["Geometry3D.geometry.body"].GeoBody
+    for name in ("intersection", "distance", "angle", "parallel", "orthogonal"):
+        om = getattr(gb, name)
+
+        def make_method(name=name, om=om):
+            @functools.wraps(om)
+            def method(self, other):
+                if name == "intersection":
+                    post = lambda r: {"res": abstract(r, False)}
+                elif name == "distance":
+                    post = lambda r: {"res": {"k": "Num2", "q": rat(float(r) ** 2, 2)}}
+                elif name == "angle":
+                    post = lambda r: {"res": {"k": "Cos2", "q": rat(math.cos(float(r)) ** 2, 0)}}
+                else:
+                    post = lambda r: {"res": {"k": "Bool", "b": r} if isinstance(r, bool) else {"k": "Other"}}
+                return record(name, (self, other), lambda: om(self, other), post=post)
+            return method
+        setattr(gb, name, make_method())
+
+    oa = G.ConvexPolygon.area
+
+    def area(self):
+        return record("area", (self,), lambda: oa(self), post=lambda r: {"res": {"k": "Num2", "q": rat(float(r) ** 2, 4)}})
+    G.ConvexPolygon.area = area
+
     for cls in (G.Line, G.Plane, G.Segment, G.HalfLine, G.ConvexPolygon, G.ConvexPolyhedron):
         oc = cls.__contains__
 
